@@ -116,9 +116,9 @@ def batchWrite (be : Backend) (db : Db) (h id : Nat) (kind : Kind) (key : Bytes)
   match aget db.batches h with
   | none => (.badHandle, db)
   | some ops =>
-    let (n, db) := resolve be db id kind
-    if badKey be key then (.panic, db)
-    else (.ok, { db with batches := aset db.batches h (ops ++ [⟨n, key, val⟩]) })
+    let r := resolve be db id kind
+    if badKey be key then (.panic, r.2)
+    else (.ok, { r.2 with batches := aset r.2.batches h (ops ++ [⟨r.1, key, val⟩]) })
 
 /-- `SerializationBuffer::{put,…}`. -/
 def sbufWrite (be : Backend) (db : Db) (s id : Nat) (kind : Kind) (key : Bytes)
@@ -127,25 +127,31 @@ def sbufWrite (be : Backend) (db : Db) (s id : Nat) (kind : Kind) (key : Bytes)
   | none => (.badHandle, db)
   | some ops =>
     if be.sbufEarly then
-      let (n, db) := resolve be db id kind
-      (.ok, { db with sbufs := aset db.sbufs s (ops ++ [⟨id, kind, some n, key, val⟩]) })
+      let r := resolve be db id kind
+      (.ok, { r.2 with sbufs := aset r.2.sbufs s (ops ++ [⟨id, kind, some r.1, key, val⟩]) })
     else
       (.ok, { db with sbufs := aset db.sbufs s (ops ++ [⟨id, kind, none, key, val⟩]) })
+
+
+/-- The column family of a buffered operation: already resolved (Fjall) or resolved now (RocksDB). -/
+def sopResolve (be : Backend) (db : Db) (op : SOp) : String × Db :=
+  match op.cf with
+  | some n => (n, db)
+  | none => resolve be db op.id op.kind
 
 /-- The loop of `consume_serialization_buffer`: operations enter the batch in order; a Fjall key
 assertion panics in the middle and leaves the earlier operations in the batch. -/
 def consumeLoop (be : Backend) (h : Nat) : List SOp → Db → Res × Db
   | [], db => (.ok, db)
   | op :: rest, db =>
-    let (n, db) := match op.cf with
-      | some n => (n, db)
-      | none => resolve be db op.id op.kind
-    if badKey be op.key then (.panic, db)
+    let r := sopResolve be db op
+    if badKey be op.key then (.panic, r.2)
     else
-      match aget db.batches h with
-      | none => (.badHandle, db)
+      match aget r.2.batches h with
+      | none => (.badHandle, r.2)
       | some ops =>
-        consumeLoop be h rest { db with batches := aset db.batches h (ops ++ [⟨n, op.key, op.val⟩]) }
+        consumeLoop be h rest
+          { r.2 with batches := aset r.2.batches h (ops ++ [⟨r.1, op.key, op.val⟩]) }
 
 def consume (be : Backend) (db : Db) (h s : Nat) : Res × Db :=
   match aget db.batches h, aget db.sbufs s with
@@ -178,9 +184,9 @@ def reopen (db : Db) : Db := { disk := db.disk }
 Outer `none` = the call panics (Fjall, composite key longer than 65535 bytes). -/
 def get (be : Backend) (db : Db) (id : Nat) (pl : Placement) (encD encK : Bytes) :
     Option (Option Bytes) × Db :=
-  let (n, db) := resolve be db id .wide
+  let r := resolve be db id .wide
   let key := wideKey be.padKey pl encD encK
-  if keyOver be key then (none, db) else (some (aget (db.disk.col n) key), db)
+  if keyOver be key then (none, r.2) else (some (aget (r.2.disk.col r.1) key), r.2)
 
 def insertKey (k : Bytes) : List Bytes → List Bytes
   | [] => [k]
@@ -205,8 +211,9 @@ def scanKeys (be : Backend) (c : Col) (p : Bytes) : List Bytes :=
 (inner `none` = `next()` panics on that key; outer `none` = the store panics on the prefix: Fjall,
 prefix longer than 65535 bytes). -/
 def scan (be : Backend) (db : Db) (id : Nat) (encK : Bytes) : Option (List (Option Bytes)) × Db :=
-  let (n, db) := resolve be db id .set
+  let r := resolve be db id .set
   let p := setPrefix encK
-  if keyOver be p then (none, db) else (some ((scanKeys be (db.disk.col n) p).map splitMember), db)
+  if keyOver be p then (none, r.2)
+  else (some ((scanKeys be (r.2.disk.col r.1) p).map splitMember), r.2)
 
 end QbiceVerif.Kv
